@@ -119,6 +119,72 @@ Proof.
     apply in_app_iff in Hin. destruct Hin as [Hin|[->|[]]]; [left; exact Hin|right; left; reflexivity]. }
   intros Hin. apply G in Hin. destruct Hin as [[]|Hin]. exact Hin.
 Qed.
+
+(* ... exactly the terms that mention one of the variables *)
+Lemma nonempty_inter_iff (l vs : list var) :
+  nonempty (list_intersection l vs) = true <-> exists v, In v l /\ In v vs.
+Proof.
+  split.
+  - destruct (list_intersection l vs) as [|x r] eqn:E; [discriminate|]. intros _.
+    assert (Hx : In x (list_intersection l vs)) by (rewrite E; left; reflexivity).
+    apply in_list_intersection in Hx. exists x. exact Hx.
+  - intros (v & Hl & Hvs). apply nonempty_true. intros E.
+    assert (Hx : In v (list_intersection l vs)) by (apply in_list_intersection; split; assumption).
+    rewrite E in Hx. destruct Hx.
+Qed.
+
+Lemma twv_In (l : list term) vs t :
+  In t (TermList_get_terms_with_vars l vs) <->
+  In t l /\ nonempty (list_intersection (term_vars t) vs) = true.
+Proof.
+  unfold TermList_get_terms_with_vars. rewrite TermList_init_Some. cbv zeta.
+  assert (G : forall acc,
+             In t (fold_left (fun terms t0 =>
+                     if nonempty (list_intersection (term_vars t0) vs)
+                     then (terms ++ [t0])%list else terms) l acc) <->
+             In t acc \/ (In t l /\ nonempty (list_intersection (term_vars t) vs) = true)).
+  { induction l as [|u r IH]; simpl; intros acc; [tauto|].
+    rewrite IH. destruct (nonempty (list_intersection (term_vars u) vs)) eqn:E.
+    - rewrite in_app_iff. simpl. split.
+      + intros [[Ha|[->|[]]]|[Hr Hc]]; tauto.
+      + intros [Ha|[[->|Hr] Hc]]; tauto.
+    - split.
+      + intros [Ha|[Hr Hc]]; tauto.
+      + intros [Ha|[[->|Hr] Hc]]; [tauto|congruence|tauto]. }
+  rewrite G. simpl. tauto.
+Qed.
+
+Lemma twv_nil (l : list term) : TermList_get_terms_with_vars l [] = [].
+Proof.
+  destruct (TermList_get_terms_with_vars l []) as [|t r] eqn:E; [reflexivity|].
+  assert (Ht : In t (TermList_get_terms_with_vars l [])) by (rewrite E; left; reflexivity).
+  apply twv_In in Ht. destruct Ht as [_ Hn]. apply nonempty_inter_iff in Hn.
+  destruct Hn as (v & _ & []).
+Qed.
+
+Lemma list_diff_nil_r {A} `{PyEq A} (l : list A) : list_diff l [] = l.
+Proof. unfold list_diff. induction l as [|x r IH]; [reflexivity|]. simpl. f_equal. exact IH. Qed.
+
+Lemma list_diff_nil_l {A} `{PyEq A} (l : list A) : list_diff [] l = [].
+Proof. reflexivity. Qed.
+
+Lemma list_union_nil_nil {A} `{PyEq A} : list_union (@nil A) [] = [].
+Proof. reflexivity. Qed.
+
+(* the variables composition eliminates are not in the interface of the result *)
+Lemma iface_disjoint (U1 U2 X k : list var) v :
+  In v (list_diff U1 X) \/ In v (list_union (list_diff U2 X) k) ->
+  In v (list_diff X k) -> False.
+Proof. rewrite in_list_union, !in_list_diff. tauto. Qed.
+
+Lemma inter_nil_comm (l1 l2 : list var) : list_intersection l1 l2 = [] -> list_intersection l2 l1 = [].
+Proof.
+  intros E. destruct (list_intersection l2 l1) as [|x r] eqn:E'; [reflexivity|].
+  assert (Hx : In x (list_intersection l2 l1)) by (rewrite E'; left; reflexivity).
+  apply in_list_intersection in Hx.
+  assert (Hy : In x (list_intersection l1 l2)) by (apply in_list_intersection; tauto).
+  rewrite E in Hy. destruct Hy.
+Qed.
 End TermListFacts.
 
 Ltac tl_simpl :=
@@ -307,7 +373,15 @@ Ltac saturate :=
       let Hq := fresh "Hq" in
       assert (W1 : wfs wf s) by wfs_solve; assert (W2 : wfs wf ctx) by wfs_solve;
       assert (W3 : vs_ok pv vs) by vs_solve;
-      destruct (relax_ok B dt wf pv S _ _ _ _ _ _ _ W1 W2 W3 Hp) as [Wr Hq]; clear Hp W1 W2 W3
+      destruct (relax_ok B dt wf pv S _ _ _ _ _ _ _ W1 W2 W3 Hp) as [Wr Hq];
+      try match goal with
+          | K : KeepSpec B dt wf pv |- _ =>
+              let Mr := fresh "Mr" in
+              let Hn := fresh "Hn" in
+              pose proof (relax_elim B dt wf pv K _ _ _ _ _ _ _ W1 W2 W3 Hp) as Mr;
+              pose proof (fun b M => relax_noelim B dt wf pv K _ _ _ _ _ _ _ W1 W2 W3 M Hp b) as Hn
+          end;
+      clear Hp W1 W2 W3
   | Hp : p_simplify ?s ?ctx = inl _ |- _ =>
       let W1 := fresh "W" in
       let W2 := fresh "W" in
@@ -333,7 +407,7 @@ Ltac saturate :=
       let Hq := fresh "Hq" in
       assert (W1 : wfs wf a) by wfs_solve; assert (W2 : wfs wf g) by wfs_solve;
       destruct (init_sound _ _ _ _ _ _ W1 W2 Hp) as (Wc & Ea & Ei & Eo & Hq);
-      clear Hp W1 W2 Ei Eo
+      clear Hp W1 W2
   end.
 
 (* instantiate the semantic halves at behaviour b *)
@@ -551,6 +625,163 @@ Proof.
   split; assumption.
 Qed.
 
+(* ---------- 7. composition keeps what it can express (C15) ---------- *)
+Theorem merge_keeps_guarantees : forall c1 c2 m, wfc wf c1 -> wfc wf c2 ->
+  IoContract_merge c1 c2 = inl m ->
+  forall t, In t (c_g c1) \/ In t (c_g c2) ->
+  forall b, den B dt (c_a m) b -> den B dt (c_g m) b -> dt t b.
+Proof.
+  intros c1 c2 m W1 W2 Hm t Ht b Ha Hg.
+  destruct (merge_exact _ _ _ W1 W2 Hm) as [_ [_ Hx]].
+  apply (Hx b Ha) in Hg. destruct Hg as [G1 G2].
+  unfold den in G1, G2. rewrite Forall_forall in G1, G2.
+  destruct Ht as [Ht|Ht]; [apply G1|apply G2]; exact Ht.
+Qed.
+
+Section Keep.
+Hypothesis K : KeepSpec B dt wf pv.
+
+Lemma mn_nil s : mentions_none [] s.
+Proof. intros t _ v _ []. Qed.
+
+Lemma mn_union vs x y :
+  mentions_none vs x -> mentions_none vs y -> mentions_none vs (list_union x y).
+Proof.
+  intros Hx Hy t Ht. unfold list_union in Ht. apply in_app_iff in Ht.
+  destruct Ht as [Ht|Ht]; [exact (Hx t Ht)|]. apply filter_In in Ht. exact (Hy t (proj1 Ht)).
+Qed.
+
+(* what is left of G after removing the terms that mention vs mentions none of
+   them: a removed term removes itself (Term.__eq__ is reflexive) *)
+Lemma mn_diff_twv vs G :
+  wfs wf G -> mentions_none vs (list_diff G (TermList_get_terms_with_vars G vs)).
+Proof.
+  intros WG t Ht v Hv Hin. unfold list_diff in Ht. apply filter_In in Ht. destruct Ht as [HtG Hpy].
+  apply negb_true_iff in Hpy.
+  assert (Hmem : In t (TermList_get_terms_with_vars G vs)).
+  { apply twv_In. split; [exact HtG|]. apply nonempty_inter_iff. exists v. split; assumption. }
+  assert (Htrue : py_in t (TermList_get_terms_with_vars G vs) = true).
+  { unfold py_in. apply existsb_exists. exists t. split; [exact Hmem|]. simpl.
+    apply (teqb_refl B dt wf pv K). unfold wfs in WG. rewrite Forall_forall in WG. apply WG. exact HtG. }
+  congruence.
+Qed.
+
+(* ... and a term of G that mentions none of vs is still there: it could only be
+   removed by an equal term, which would be over the same variables *)
+Lemma den_diff_twv_in vs G t b :
+  wfs wf G -> In t G -> (forall v, In v (term_vars t) -> ~ In v vs) ->
+  den B dt (list_diff G (TermList_get_terms_with_vars G vs)) b -> dt t b.
+Proof.
+  intros WG HtG Hmn Hden. unfold den in Hden. rewrite Forall_forall in Hden. apply Hden.
+  unfold list_diff. apply filter_In. split; [exact HtG|]. apply negb_true_iff.
+  destruct (py_in t (TermList_get_terms_with_vars G vs)) eqn:E; [exfalso|reflexivity].
+  unfold py_in in E. apply existsb_exists in E. destruct E as (u & Hu & Eu). simpl in Eu.
+  apply twv_In in Hu. destruct Hu as [HuG Hne]. apply nonempty_inter_iff in Hne.
+  destruct Hne as (v & Hvu & Hvs).
+  unfold wfs in WG. rewrite Forall_forall in WG.
+  apply (Hmn v); [|exact Hvs].
+  apply (teqb_vars B dt wf pv K t u (WG t HtG) (WG u HuG) Eu v). exact Hvu.
+Qed.
+
+Lemma twv_none s vs : mentions_none vs s -> TermList_get_terms_with_vars s vs = [].
+Proof.
+  intros Hmn. destruct (TermList_get_terms_with_vars s vs) as [|t r] eqn:E; [reflexivity|].
+  assert (Ht : In t (TermList_get_terms_with_vars s vs)) by (rewrite E; left; reflexivity).
+  apply twv_In in Ht. destruct Ht as [Hts Hne]. apply nonempty_inter_iff in Hne.
+  destruct Hne as (v & Hv & Hvs). exfalso. exact (Hmn t Hts v Hv Hvs).
+Qed.
+
+(* the algebra's boolean tests are no longer needed once the contracts of the
+   primitive calls are in the context *)
+Ltac clear_tests :=
+  repeat match goal with E : @eq bool _ _ |- _ => clear E end.
+
+Ltac mn_solve :=
+  solve [ repeat first [ assumption | apply mn_nil | apply mn_union
+                       | (apply mn_diff_twv; wfs_solve) ] ].
+
+(* use relax_noelim wherever its "nothing to eliminate" premise can be shown *)
+Ltac discharge_noelim :=
+  repeat match goal with
+  | Hn : mentions_none ?vs ?s -> _ |- _ =>
+      let M := fresh "M" in
+      assert (M : mentions_none vs s) by mn_solve; specialize (Hn M); clear M
+  end.
+
+(* a relaxation result has no term left for the final get_terms_with_vars / sub *)
+Ltac drop_final_filter :=
+  repeat match goal with
+  | Mr : mentions_none ?I ?r |- _ => progress (rewrite (twv_none r I Mr) in * )
+  end;
+  rewrite ?twv_nil, ?list_diff_nil_r in *.
+
+Theorem compose_keeps_guarantees : forall c1 c2 keep sp od c st, wfc wf c1 -> wfc wf c2 ->
+  iface_ok pv c1 -> iface_ok pv c2 -> NoDup (opt_list keep) ->
+  IoContract_compose_tactics c1 c2 keep sp od = inl (c, st) ->
+  forall t, In t (c_g c1) \/ In t (c_g c2) ->
+  (forall v, In v (term_vars t) -> In v (c_inputvars c) \/ In v (c_outputvars c)) ->
+  forall b, den B dt (c_a c) b -> den B dt (c_g c) b -> dt t b.
+Proof.
+  intros c1 c2 keep sp od c st W1 W2 I1 I2 Nk Hc t Ht Hv b. open_wfc. open_iface.
+  destruct keep as [k|]; simpl opt_list in Nk;
+  unfold IoContract_compose_tactics in Hc; open_in Hc;
+  repeat inl_step; tl_simpl; saturate; clear_tests; at_behaviour b;
+  (* t mentions no eliminated variable: they are not in the result's interface *)
+  lazymatch goal with
+  | Mr : mentions_none ?I _ |- _ =>
+      assert (Hmn : forall v, In v (term_vars t) -> ~ In v I);
+      [ let v := fresh "v" in
+        let Hvt := fresh "Hvt" in
+        let Hin := fresh "Hin" in
+        intros v Hvt Hin; apply Hv in Hvt;
+        lazymatch goal with
+        | Ei : c_inputvars c = _, Eo : c_outputvars c = _ |- _ => rewrite Ei, Eo in Hvt
+        end;
+        first
+          [ exact (iface_disjoint _ _ _ _ _ Hvt Hin)
+          | (* shape-independent fallback *)
+            repeat (rewrite in_list_diff in Hvt || rewrite in_list_union in Hvt
+                    || rewrite in_list_intersection in Hvt);
+            repeat (rewrite in_list_diff in Hin || rewrite in_list_union in Hin
+                    || rewrite in_list_intersection in Hin);
+            tauto ]
+      | (* so it is among the re-added terms of its own contract *)
+        destruct Ht as [Ht|Ht];
+        lazymatch type of Ht with
+        | In t ?G =>
+            let WG := fresh "WG" in
+            assert (WG : wfs wf G) by wfs_solve;
+            pose proof (den_diff_twv_in I G t b WG Ht Hmn)
+        end ]
+  end;
+  discharge_noelim; drop_final_filter; den_finish b.
+Qed.
+
+(* with no connection nothing is eliminated, and the composition is exact *)
+Theorem compose_exact : forall c1 c2 keep sp od c st, wfc wf c1 -> wfc wf c2 ->
+  iface_ok pv c1 -> iface_ok pv c2 -> NoDup (opt_list keep) ->
+  IoContract_compose_tactics c1 c2 keep sp od = inl (c, st) ->
+  list_intersection (c_outputvars c1) (c_inputvars c2) = [] /\
+  list_intersection (c_inputvars c1) (c_outputvars c2) = [] ->
+  exact_obligation B dt c1 c2 c.
+Proof.
+  intros c1 c2 keep sp od c st W1 W2 I1 I2 Nk Hc [N1 N2]. open_wfc. open_iface.
+  pose proof (inter_nil_comm _ _ N1) as N1'. pose proof (inter_nil_comm _ _ N2) as N2'.
+  destruct keep as [k|]; simpl opt_list in Nk;
+  unfold IoContract_compose_tactics in Hc; open_in Hc;
+  repeat inl_step;
+  (* neither contract "helps" the other: the refinement branches are unreachable *)
+  try (exfalso;
+       match goal with
+       | E : _ = true |- _ => rewrite ?N1, ?N2, ?N1', ?N2' in E; simpl in E; discriminate E
+       end);
+  rewrite ?N1, ?N2 in *; rewrite ?list_union_nil_nil, ?list_diff_nil_l in *;
+  tl_simpl; saturate; clear_tests;
+  (split; intros b); at_behaviour b; discharge_noelim; drop_final_filter; den_finish b.
+Qed.
+
+End Keep.
+
 End Sound.
 
 (* ------------------------------------------------------------------ *)
@@ -742,6 +973,24 @@ Proof.
   apply (atom_eqb_sound _ _ Eu b). apply Hx. exact Hu.
 Qed.
 
+(* the toy relaxation drops exactly the atoms over eliminated variables *)
+Lemma ToyKeep : KeepSpec beh atom_dt atom_wf atom_pv.
+Proof.
+  constructor.
+  - intros [v n] _. simpl. rewrite String.eqb_refl, Nat.eqb_refl. reflexivity.
+  - intros [v1 n1] [v2 n2] _ _ E v. simpl in E. apply andb_true_iff in E. destruct E as [Ev _].
+    apply String.eqb_eq in Ev. subst. tauto.
+  - intros s ctx vs sp od r st _ _ _ Hr. simpl in Hr. inversion Hr; subst; clear Hr.
+    intros [v n] Ht w Hw Hin. apply filter_In in Ht. destruct Ht as [_ Hm].
+    simpl in Hm, Hw. destruct Hw as [<-|[]]. apply negb_true_iff in Hm.
+    apply py_in_var_false in Hm. contradiction.
+  - intros s ctx vs sp od r st _ _ _ Hmn Hr b _. simpl in Hr. inversion Hr; subst; clear Hr.
+    unfold den. rewrite !Forall_forall. split; intros Hd t Ht.
+    + apply Hd. apply filter_In. split; [exact Ht|]. apply negb_true_iff.
+      destruct t as [v n]. simpl. apply py_in_var_false. apply (Hmn _ Ht v). left. reflexivity.
+    + apply Hd. apply filter_In in Ht. tauto.
+Qed.
+
 (* c1 : input x, output y, assumes x = 0, guarantees y = 1
    c2 : input y, output z, assumes y = 1, guarantees z = 2     (cascade on y) *)
 Definition c1 : contract :=
@@ -810,6 +1059,26 @@ Proof. vm_compute. reflexivity. Qed.
 Example merge_incompatible : IoContract_merge c1 c2 = inr IncompatibleArgs.
 Proof. vm_compute. reflexivity. Qed.
 
+(* C15: keeping the connection variable y keeps the guarantee y = 1 ... *)
+Definition c12y : contract :=
+  {| c_a := [Atom "x" 0]; c_g := [Atom "y" 1; Atom "z" 2];
+     c_inputvars := ["x"]; c_outputvars := ["z"; "y"] |}.
+Example compose_keep_runs :
+  exists st, IoContract_compose_tactics c1 c2 (Some ["y"]) true None = inl (c12y, st).
+Proof. eexists. vm_compute. reflexivity. Qed.
+
+(* ... and composing unconnected contracts (c3 : input u, output w, assumes u = 3,
+   guarantees w = 4) keeps everything *)
+Definition c3 : contract :=
+  {| c_a := [Atom "u" 3]; c_g := [Atom "w" 4]; c_inputvars := ["u"]; c_outputvars := ["w"] |}.
+Definition c13 : contract :=
+  {| c_a := [Atom "x" 0; Atom "u" 3]; c_g := [Atom "y" 1; Atom "w" 4];
+     c_inputvars := ["x"; "u"]; c_outputvars := ["y"; "w"] |}.
+Lemma iface_c3 : iface_ok atom_pv c3. Proof. apply atom_iface; apply NoDup1. Qed.
+Example compose_unconnected_runs :
+  exists st, IoContract_compose_tactics c1 c3 None true None = inl (c13, st).
+Proof. eexists. vm_compute. reflexivity. Qed.
+
 End Toy.
 
 Print Assumptions compose_sound.
@@ -820,6 +1089,9 @@ Print Assumptions merge_exact.
 Print Assumptions init_sound.
 Print Assumptions refines_sound.
 Print Assumptions algebra_errors.
+Print Assumptions compose_keeps_guarantees.
+Print Assumptions compose_exact.
+Print Assumptions merge_keeps_guarantees.
 Print Assumptions rename_wfc.
 Print Assumptions copy_wfc.
 Print Assumptions simplify_wfc.
